@@ -30,7 +30,8 @@ type PeerModel struct {
 	Name       string
 	Trusted    bool
 	Best       *WBlock
-	MaxHeaders int
+	MaxHeaders int // cap of a getheaders response (Bitcoin: 2000; fewer means "that is all I have")
+	AnnounceChunk int // headers per unsolicited announcement message
 	PingEvery  time.Duration
 	Mempool    []*wire.MsgTx
 	Conns      []*PeerConn
@@ -39,6 +40,7 @@ type PeerModel struct {
 	ServeTx    func(txid bitcoin.Hash32) *wire.MsgTx // nil: serve from Mempool / world
 	// fault knobs (rates are x/1000 per opportunity)
 	DupHeaders   uint32
+	DupBudget    int // total number of duplicated messages per run (a rate alone lets the node's poll-per-message habit amplify without bound)
 	DupBlock     uint32
 	ReorderBlock uint32
 	Reannounce   uint32
@@ -100,6 +102,16 @@ func (pc *PeerConn) LastConsumedHeaders() *wire.MsgHeaders {
 		}
 	}
 	return last
+}
+
+// dup reports whether a message should be sent twice (bounded per run).
+func (p *PeerModel) dup(perMille uint32) bool {
+	if p.DupBudget <= 0 || !p.chance(perMille) {
+		return false
+	}
+	p.DupBudget--
+	p.sim.c.FaultFired("F-peer-dup")
+	return true
 }
 
 func (p *PeerModel) chance(perMille uint32) bool {
@@ -196,29 +208,29 @@ func (p *PeerModel) handle(pc *PeerConn, msg wire.Message) {
 			return
 		}
 		start := p.sim.Tree.Genesis
+		best := p.Best
 		for _, h := range m.BlockLocatorHashes {
-			if b, ok := p.sim.Tree.ByHash[*h]; ok && IsAncestor(b, p.Best) {
+			if b, ok := p.sim.Tree.ByHash[*h]; ok && IsAncestor(b, best) {
 				start = b
 				break
 			}
 		}
-		chain := Chain(p.Best)
+		chain := Chain(best)
 		hm := wire.NewMsgHeaders()
-		for h := start.Height + 1; h <= p.Best.Height && len(hm.Headers) < p.MaxHeaders; h++ {
+		for h := start.Height + 1; h <= best.Height && len(hm.Headers) < p.MaxHeaders; h++ {
 			hdr := chain[h].Header
 			hm.AddBlockHeader(&hdr)
 		}
 		if len(hm.Headers) > 0 {
 			last := chain[start.Height+len(hm.Headers)]
-			if last.Height > pc.LastCommon.Height || !IsAncestor(pc.LastCommon, p.Best) {
+			if last.Height > pc.LastCommon.Height || !IsAncestor(pc.LastCommon, best) {
 				pc.LastCommon = last
 			}
-		} else if !IsAncestor(pc.LastCommon, p.Best) || start.Height > pc.LastCommon.Height {
+		} else if !IsAncestor(pc.LastCommon, best) || start.Height > pc.LastCommon.Height {
 			pc.LastCommon = start
 		}
 		pc.Send(hm)
-		if p.chance(p.DupHeaders) {
-			p.sim.c.FaultFired("F-peer-dup")
+		if p.dup(p.DupHeaders) {
 			pc.Send(hm)
 		}
 	case *wire.MsgGetData:
@@ -264,8 +276,7 @@ func (p *PeerModel) handle(pc *PeerConn, msg wire.Message) {
 			}
 			bad := p.BadBody != nil && p.BadBody[b.Hash]
 			pc.Send(b.MsgBlock(bad))
-			if p.chance(p.DupBlock) {
-				p.sim.c.FaultFired("F-peer-dup")
+			if p.dup(p.DupBlock) {
 				pc.Send(b.MsgBlock(bad))
 			}
 		}
@@ -280,27 +291,31 @@ func (p *PeerModel) announce(pc *PeerConn) {
 	if pc.Dead || !pc.VerackSeen {
 		return
 	}
+	best := p.Best // Send yields: the scenario may move p.Best meanwhile
 	if !pc.SendHeaders {
 		inv := wire.NewMsgInv()
-		inv.AddInvVect(wire.NewInvVect(wire.InvTypeBlock, &p.Best.Hash))
+		inv.AddInvVect(wire.NewInvVect(wire.InvTypeBlock, &best.Hash))
 		pc.Send(inv)
 		return
 	}
-	fork := ForkPoint(pc.LastCommon, p.Best)
-	chain := Chain(p.Best)
-	for h := fork.Height + 1; h <= p.Best.Height; {
+	fork := ForkPoint(pc.LastCommon, best)
+	chain := Chain(best)
+	pc.LastCommon = best
+	for h := fork.Height + 1; h <= best.Height; {
 		hm := wire.NewMsgHeaders()
-		for ; h <= p.Best.Height && len(hm.Headers) < p.MaxHeaders; h++ {
+		chunk := p.AnnounceChunk
+		if chunk <= 0 {
+			chunk = p.MaxHeaders
+		}
+		for ; h <= best.Height && len(hm.Headers) < chunk; h++ {
 			hdr := chain[h].Header
 			hm.AddBlockHeader(&hdr)
 		}
 		pc.Send(hm)
-		if p.chance(p.DupHeaders) {
-			p.sim.c.FaultFired("F-peer-dup")
+		if p.dup(p.DupHeaders) {
 			pc.Send(hm)
 		}
 	}
-	pc.LastCommon = p.Best
 }
 
 // SetBest moves the peer's best chain and announces it on every live connection.
